@@ -137,7 +137,8 @@ local function applyData(fi)
   curF, curA = fi, 0
   rec(p .. "()", d, pcall(f))
   if dataOnly[fi] then
-    for i = 1, DN do rec(p .. "(" .. DP[i] .. ")", d, pcall(f, D(i))) end
+    rec(p .. '("x")', d, pcall(f, "x"))
+    rec(p .. "(0)", d, pcall(f, 0))
     rec(p .. '("x","x")', d, pcall(f, "x", "x"))
     return
   end
@@ -149,7 +150,7 @@ local function applyData(fi)
     end
   end
 end
-local PD = {2, 4, 7}
+local PD = {2, 7}
 local function applyVal(fi, ai)
   if dataOnly[fi] then return end
   local f, p, d = vals[fi], paths[fi], cd[fi] + 1
